@@ -751,8 +751,10 @@ def _ctor_defaults(cls):
 def run_native(harness, values, apply_stubs=False):
     """returns (status, ctx) with status in ok / fail / skip / raised"""
     ctx = NativeCtx(values, apply_stubs=apply_stubs)
+    import contextlib, io
     try:
-        harness(ctx)
+        with contextlib.redirect_stdout(io.StringIO()):      # the repo prints diagnostics
+            harness(ctx)
     except NativeSkip:
         return "skip", ctx
     except Exception as e:      # the real code raised something the harness does not expect
